@@ -3,6 +3,7 @@
 package cl
 
 import (
+	"math"
 	"math/big"
 
 	"github.com/ohler55/slip"
@@ -46,7 +47,12 @@ func (f *Multiply) Call(s *slip.Scope, args slip.List, depth int) (product slip.
 		arg, product = slip.NormalizeNumber(arg, product)
 		switch ta := arg.(type) {
 		case slip.Fixnum:
-			product = ta * product.(slip.Fixnum)
+			tp := product.(slip.Fixnum)
+			if r := ta * tp; ta == 0 || (r/ta == tp && !(ta == -1 && tp == math.MinInt64)) {
+				product = r
+			} else { // overflow
+				product = (*slip.Bignum)(new(big.Int).Mul(big.NewInt(int64(ta)), big.NewInt(int64(tp))))
+			}
 		case slip.SingleFloat:
 			product = ta * product.(slip.SingleFloat)
 		case slip.DoubleFloat:
